@@ -53,8 +53,8 @@ type GenOpts struct {
 // trigger flushes, both chosen here.
 func GenHistory(rt *rapid.T, o GenOpts) History {
 	h := History{}
-	h.Cfg.Workers = rapid.SampledFrom([]int{1, 1, 1, 2, 3, 4}).Draw(rt, "workers")
-	h.Cfg.RetryAttempts = rapid.IntRange(1, 4).Draw(rt, "retries")
+	h.Cfg.Workers = rapid.SampledFrom([]int{1, 1, 1, 2, 3, 4, 8}).Draw(rt, "workers")
+	DrawRetries(rt, &h.Cfg)
 	h.Cfg.Bernstein = rapid.Bool().Draw(rt, "bernstein")
 	useHTTP := o.HTTP && rapid.IntRange(0, 9).Draw(rt, "use_http") < 4
 	if useHTTP {
@@ -64,6 +64,10 @@ func GenHistory(rt *rapid.T, o GenOpts) History {
 		h.Cfg.MaxQueueSize = rapid.SampledFrom([]int64{0, 0, 1 << 30}).Draw(rt, "queue")
 	} else {
 		h.Cfg.MaxQueueSize = rapid.SampledFrom([]int64{0, 1, 60, 200, 2000, 1 << 30}).Draw(rt, "queue")
+	}
+	if (useHTTP || h.Cfg.Workers > 1) && rapid.IntRange(0, 3).Draw(rt, "interval") == 2 {
+		// a real 1 ms timer next to the forced flushes: nothing is predicted in these modes
+		h.Cfg.IntervalMs = 1
 	}
 	n := o.MaxActions
 	// a history concentrates on a few services so that requests meet in the same batches
@@ -158,6 +162,20 @@ func GenHistory(rt *rapid.T, o GenOpts) History {
 		h.Actions = append(h.Actions, Action{Op: "stop", Kind: rapid.SampledFrom(focus).Draw(rt, "kind")})
 	}
 	return h
+}
+
+// DrawRetries draws system_settings.retry_attempts over its whole range: the usual 1..4,
+// the boundary 0 ("no retries": the unchanged doPush never calls the service, retry.Do
+// returns an empty but non-nil error list and the handler answers 500) and a very large
+// count (with retry delay 0 a failing part is re-submitted until it succeeds).
+func DrawRetries(rt *rapid.T, c *Config) {
+	switch v := rapid.SampledFrom([]int{1, 2, 0, 3, 1000, 4, 0, 1}).Draw(rt, "retries"); v {
+	case 0:
+		c.ZeroAttempts = true
+		c.RetryAttempts = 1
+	default:
+		c.RetryAttempts = v
+	}
 }
 
 // KindsOfProto lists the services an HTTP push of a protocol feeds; the first one is the
@@ -342,7 +360,7 @@ func RunHistory(h History) *Trace {
 	hs := New(h.Cfg)
 	defer hs.Close()
 	tr := &Trace{H: h, Stopped: map[Kind]bool{}}
-	exact := h.Cfg.Workers <= 1
+	exact := h.Cfg.Workers <= 1 && h.Cfg.IntervalMs == 0
 	for _, a := range h.Actions {
 		if a.Op == "http" {
 			exact = false
@@ -586,9 +604,9 @@ func RunHistory(h History) *Trace {
 			allHTTP = true
 		default:
 		}
-		if s == a && allHTTP && hs.Rec.Settled(hs.Cfg.RetryAttempts) {
+		if s == a && allHTTP && hs.Rec.Settled(hs.Cfg.Attempts()) {
 			time.Sleep(300 * time.Microsecond)
-			if hs.Rec.Settled(hs.Cfg.RetryAttempts) {
+			if hs.Rec.Settled(hs.Cfg.Attempts()) {
 				break
 			}
 			continue
